@@ -284,6 +284,18 @@ func qualifiedName(x ast.Expr) string {
 	}
 }
 
+// isBuiltinFunc reports whether fn is an identifier that denotes
+// the predeclared function with the given name (and not a user-declared
+// function or variable that merely reuses that name).
+func isBuiltinFunc(info *types.Info, fn ast.Expr, name string) bool {
+	id, ok := fn.(*ast.Ident)
+	if !ok || id.Name != name {
+		return false
+	}
+	obj, ok := info.ObjectOf(id).(*types.Builtin)
+	return ok && obj.Name() == name
+}
+
 // identOf returns identifier for x that can be used to obtain associated types.Object.
 // Returns nil for expressions that yield temporary results, like `f().field`.
 func identOf(x ast.Node) *ast.Ident {
